@@ -1,6 +1,6 @@
 //! C05 — encryption round-trips for every strength, configuration and password.
 use crate::engine::{Ctx, Outcome, PropertyDef};
-use crate::props::c03::{strength_name, write_case, Enc};
+use crate::props::c03::{strength_name, write_case_with_fields, Enc};
 use crate::props::progdoc::{self, Cfg, Prog};
 use crate::props::util::canon_lib;
 use crate::refpdf;
@@ -36,6 +36,9 @@ pub struct Case {
     /// canonical form: 0xFFFFFFFF is the most common /P value of real files); `perms` is ignored then
     #[serde(default)]
     pub raw_perms: Option<u32>,
+    /// filled text fields (name, /V, /DV) added to the document before both writings
+    #[serde(default)]
+    pub fields: Vec<(String, Option<String>, Option<String>)>,
 }
 
 pub fn perms_of(bits: u8) -> Permissions {
@@ -192,14 +195,16 @@ pub fn check(c: &Case) -> Outcome {
         None => perms_of(c.perms),
     };
     o.label_if(c.raw_perms.is_some(), "raw-permission-word");
-    let twin = match write_case(&c.prog, c.cfg, None, None) {
+    o.label_if(!c.fields.is_empty(), "form-fields");
+    o.label_if(c.fields.iter().any(|f| f.1.is_some()), "form-field-with-value");
+    let twin = match write_case_with_fields(&c.prog, c.cfg, None, None, &c.fields) {
         Ok(b) => b,
         Err(_) => {
             o.label("authoring-refused");
             return o;
         }
     };
-    let bytes = match write_case(&c.prog, c.cfg, Some(&c.enc), Some(perms)) {
+    let bytes = match write_case_with_fields(&c.prog, c.cfg, Some(&c.enc), Some(perms), &c.fields) {
         Ok(b) => b,
         Err(e) => {
             o.fail("C05/encrypted-write-succeeds", class("write"), e);
@@ -379,9 +384,13 @@ pub fn password() -> impl Strategy<Value = String> {
 }
 
 fn strategy() -> impl Strategy<Value = Case> {
-    (progdoc::prog(), progdoc::cfg_light(), 0u8..4, password(), password(), prop::bool::weighted(0.2), prop_oneof![Just(0xFFu8), any::<u8>()], prop::option::weighted(0.25, prop_oneof![Just(0xFFFF_FFFFu32), Just(0x0000_0F3Cu32), Just(0u32), any::<u32>()])).prop_map(|(prog, cfg, strength, user, owner, same, perms, raw_perms)| {
+    (progdoc::prog(), progdoc::cfg_light(), 0u8..4, password(), password(), prop::bool::weighted(0.2), prop_oneof![Just(0xFFu8), any::<u8>()], prop::option::weighted(0.25, prop_oneof![Just(0xFFFF_FFFFu32), Just(0x0000_0F3Cu32), Just(0u32), any::<u32>()]), prop_oneof![2 => Just(Vec::new()), 1 => prop::collection::vec(("[a-z]{1,6}", prop::option::weighted(0.8, "[ -~]{1,12}|[a-zé中]{1,6}"), prop::option::weighted(0.3, "[a-z ]{1,8}")), 1..4)]).prop_map(|(prog, cfg, strength, user, owner, same, perms, raw_perms, mut fields)| {
         let owner = if same { user.clone() } else { owner };
-        Case { prog, cfg, enc: Enc { strength, user, owner }, perms, raw_perms }
+        // field names must be distinct
+        for (i, f) in fields.iter_mut().enumerate() {
+            f.0 = format!("{}{i}", f.0);
+        }
+        Case { prog, cfg, enc: Enc { strength, user, owner }, perms, raw_perms, fields }
     })
 }
 
